@@ -231,6 +231,9 @@ type Gen struct {
 	LateStamps bool
 	// member names that differ only by the case of their letters
 	CaseNames bool
+	// a plain `expects` predicate may go through a variable that the member
+	// itself computes as the signal (ExpKind "comp")
+	ExpectViaComputed bool
 }
 
 func (g *Gen) pick(xs []string) string { return xs[g.R.Intn(len(xs))] }
@@ -458,6 +461,17 @@ func (g *Gen) Config() *Config {
 					op = ">"
 				}
 				m.Expect = Bin(op, V(m.ExpVar[0], "s"), Num(m.ExpK))
+				if g.ExpectViaComputed && g.R.Intn(3) == 0 {
+					nvar++
+					tgt := fmt.Sprintf("w%d", nvar)
+					as := Assign{Target: tgt, Mode: "single", E: V(m.ExpVar[0], "s"), Typ: TNum}
+					m.ClauseOrdr = append(m.ClauseOrdr, fmt.Sprintf("%s computes %s as %s", m.Name, tgt, as.E.Src()))
+					m.Assigns = append(m.Assigns, as)
+					c.VarTypes[tgt] = as.Typ
+					c.VarOrder = append(c.VarOrder, tgt)
+					m.ExpKind = "comp"
+					m.Expect = Bin(op, V("", tgt), Num(m.ExpK))
+				}
 			} else {
 				// signals only, or also t / mood / moodt / computed variables
 				m.Expect = g.boolExpr(c, 2, g.R.Intn(2) == 0)
